@@ -73,6 +73,25 @@ def main(argv):
                 run.hist("model_status", str(mo))
                 continue
             decs = co.model(i, T, [{"k": "decfull", "hex": m["hex"]} if m.get("r") == "ok" else {"k": "decfull", "hex": ""} for m in mo])
+            # theorems roundtrip / roundtrip_rust: hypothesis on this layout, and the statement evaluated on this
+            # run's values (model side): reference-mode encoder ok bs  =>  decode_full (either mode) bs = canonBody v
+            hyp = co.model(i, T, [{"k": "len", "v": {}}])
+            rtwf = bool(isinstance(hyp, list) and hyp[0].get("rtwf"))
+            nomod = bool(isinstance(hyp, list) and hyp[0].get("nomod"))
+            run.hist("theorem_hypotheses", "rtWfBody:%s noModBody:%s" % (rtwf, nomod))
+            if rtwf:
+                idl = co.mdl.ask({"op": "wire", "type": T, "mode": "ideal", "cases": [{"k": "enc", "v": v} for v, _ in vals]}, timeout=300)
+                can = co.model(i, T, [{"k": "canon", "v": v} for v, _ in vals])
+                if idl and idl.get("status") == "ok" and isinstance(can, list):
+                    for (v, _), mi, mc, md in zip(vals, idl["out"], can, decs):
+                        if mi.get("r") != "ok":
+                            continue
+                        run.count("theorem_instances")
+                        if not (md.get("r") == "ok" and W.canon(md.get("value")) == W.canon(mc.get("value"))) and nomod:
+                            run.violation("corr", "theorem roundtrip_rust contradicted by evaluation on %s (model bug)" % T,
+                                          {"pdl": d["text"], "type": T, "value": v, "corr": "thm:roundtrip_rust"}, found_input=False)
+                        if W.canon(mc.get("value")) != W.canon(v):
+                            run.hist("canon", "value-not-in-normal-form")
             for (v, _), m, md in zip(vals, mo, decs):
                 r = wc.impl(i, T, "rt", v)
                 run.case((d["text"], T, W.canon(v)))
